@@ -27,9 +27,9 @@ type seedMeta struct {
 }
 
 type mutantResult struct {
-	name     string
-	status   string // detected | missed | skipped | broken
-	detail   string
+	name   string
+	status string // detected | missed | skipped | broken
+	detail string
 }
 
 func thorough(w *World, prop, repo, verif string) int {
